@@ -122,6 +122,47 @@ class RankChooser:
         return True
 
 
+class DelayChooser:
+    """one priority change point (PCT with d=1): every completion of node `node` is withheld until `after` other
+    deliveries (completions or clock advances) have happened, or nothing else can happen; everything else is
+    delivered oldest first and only when the loop would block. Reaches 'X completes exactly inside this window'
+    schedules that random tapes hit with tiny probability."""
+
+    kind = 'delay'
+
+    def __init__(self, node, after):
+        self.node = node
+        self.after = after
+        self.count = 0
+        self.log = []
+
+    def choose(self, loop, blocking):
+        if not blocking:
+            return True
+        held = None
+        for i, (label, _) in enumerate(loop.pending):
+            is_held = isinstance(label, tuple) and len(label) > 2 and label[2] == self.node
+            if is_held and self.count < self.after:
+                if held is None:
+                    held = i
+                continue
+            self.count += 1
+            self.log.append(('fire', i))
+            loop.fire(i)
+            return True
+        if loop.has_future_timer():
+            self.count += 1
+            self.log.append(('timer',))
+            loop.advance_clock()
+            return True
+        if held is not None:
+            self.count = self.after  # nothing else can happen: release
+            self.log.append(('fire', held))
+            loop.fire(held)
+            return True
+        return False
+
+
 class HoldChooser:
     """Withholds completions whose label satisfies `held(label)` until nothing else can happen; then calls
     on_quiescent(loop) which may change the hold predicate (return True to go on) or stop (return False)."""
